@@ -197,6 +197,21 @@ pub enum Ffi {
     /// every foreign call compiles to a panic (used for repository documents whose FFI modules
     /// are not linked into the harness)
     Stub,
+    /// the schemas of the repository's own FFI modules (crypto, device, envelope, idam,
+    /// perspective); at run time every foreign call fails with an FFI error
+    Real,
+}
+
+pub fn real_schemas() -> [ModuleSchema<'static>; 5] {
+    use aranya_crypto::keystore::memstore::MemStore;
+    use aranya_policy_vm::ffi::FfiModule as _;
+    [
+        aranya_crypto_ffi::Ffi::<MemStore>::SCHEMA,
+        aranya_device_ffi::FfiDevice::SCHEMA,
+        aranya_envelope_ffi::Ffi::SCHEMA,
+        aranya_idam_ffi::Ffi::<MemStore>::SCHEMA,
+        aranya_perspective_ffi::FfiPerspective::SCHEMA,
+    ]
 }
 
 /// Parse (V2) + compile (debug mode). `Err` carries the first line of the front-end's message.
@@ -212,6 +227,30 @@ pub fn compile_text(src: &str, ffi: Ffi) -> Result<Module, String> {
     }
 }
 
+/// Like `compile_text` but without rendering the diagnostic of a rejection (rendering dominates
+/// when most candidates are rejected). `Err(true)` = the front end panicked.
+pub fn compile_text_quiet(src: &str, ffi: Ffi) -> Result<Module, bool> {
+    compile_quiet(src, false, ffi)
+}
+
+pub fn compile_quiet(src: &str, markdown: bool, ffi: Ffi) -> Result<Module, bool> {
+    match mcx::catch(|| {
+        let ast = if markdown { parse_policy_document(src).map_err(|_| ())? } else { parse_policy_str(src, Version::V2).map_err(|_| ())? };
+        let c = Compiler::new(&ast).debug(true);
+        let c = match ffi {
+            Ffi::None => c,
+            Ffi::Probe => c.ffi_modules(PROBE_SCHEMA),
+            Ffi::Stub => c.stub_ffi(true),
+            Ffi::Real => return Compiler::new(&ast).debug(true).ffi_modules(&real_schemas()).compile().map_err(|_| ()),
+        };
+        c.compile().map_err(|_| ())
+    }) {
+        Ok(Ok(m)) => Ok(m),
+        Ok(Err(())) => Err(false),
+        Err(_) => Err(true),
+    }
+}
+
 pub fn compile_markdown(doc: &str, ffi: Ffi) -> Result<Module, String> {
     match mcx::catch(|| {
         let ast = parse_policy_document(doc).map_err(|e| format!("parse: {}", first_lines(&e.to_string())))?;
@@ -224,10 +263,12 @@ pub fn compile_markdown(doc: &str, ffi: Ffi) -> Result<Module, String> {
 
 fn compile_ast(ast: &aranya_policy_ast::Policy, ffi: Ffi) -> Result<Module, String> {
     let c = Compiler::new(ast).debug(true);
+    let real = real_schemas();
     let c = match ffi {
         Ffi::None => c,
         Ffi::Probe => c.ffi_modules(PROBE_SCHEMA),
         Ffi::Stub => c.stub_ffi(true),
+        Ffi::Real => c.ffi_modules(&real),
     };
     c.compile().map_err(|e| format!("compile: {}", first_lines(&e.to_string())))
 }
